@@ -258,7 +258,22 @@ def swap_context(repo, workdir, name, text, types, pool_types):
     cx.raw_offsets = offs
     cx.types = S.type_table(allt)
     cx.extra_enums = set(S.enum_names(allt))
+    cx.typedefs = typedef_names()
     return cx
+
+
+def typedef_names():
+    """typedefs of the schema pool (global scope in the raw header, so outside the filtered AST dump): name -> C++ type"""
+    from specs import family as F, wire as W
+    out = {}
+    for n, t in F.POOL.t.items():
+        if getattr(t, 'name', None) == n or n in ('u8', 'u16', 'u32', 'u64', 'i8', 'i16', 'i32', 'i64', 'r32', 'r64', 'byte'):
+            continue
+        if isinstance(t, W.Int):
+            out[n] = '%sint%d_t' % ('' if t.signed else 'u', 8 * t.size)
+        elif isinstance(t, (W.Struct, W.Union, W.Enum)):
+            out[n] = t.name
+    return out
 
 
 def check_swap_unit(repo, name, text, types, pool_types, timeout_ms=20000, jobs=1, verify_pool=True):
